@@ -433,7 +433,7 @@ func TestC42(t *testing.T) {
 	W := 4
 
 	if vh.Tier() == "thorough" {
-		W = 8
+		W = thoroughWorkers(gmp)
 	}
 
 	if s := os.Getenv("CONC_WORKERS"); s != "" {
